@@ -74,6 +74,37 @@ def _generic_alloc(shape, fill):
     return None
 
 
+def _tile_block(x, reps):
+    """np.tile(B, (N, 1)) for a block B with one entry per subunit (n rows): N*n rows, row p holds B[p mod n].  Lines up with the
+    current layout of the table made of n stacked copies of an N-row table: after sort_values (blocks of n copies per parent) p mod n
+    is the place j of the row within its block; without such a layout the block index is an unknown in [0,n)"""
+    from .frames import RowPos, _reset_space
+    cx = ctx()
+    target = None
+    for sp in reversed(getattr(cx, "spaces", [])):
+        rep = getattr(sp, "rep", None)
+        if rep is not None and z3.simplify(to_z3(rep["n"]) - to_z3(x.space.n)).eq(z3.IntVal(0)) and z3.simplify(to_z3(rep["src_space"].n) - to_z3(reps)).eq(z3.IntVal(0)):
+            target = sp
+            break
+    if target is None:
+        raise Unsupported("np.tile of a per-row block without a replicated table of matching size")
+    rep = target.rep
+    idx = rep.get("block_index")
+    if idx is None:
+        idx = rep.get("tile_index")
+        if idx is None:
+            idx = rep["tile_index"] = cx.fresh("tile_index", "Int")
+            cx.assume(z3.And(idx >= 0, idx < to_z3(rep["n"])))
+    # the generic row of the block is taken to be the one that lands in the generic row of the table: its position is idx.
+    # (angle atoms and other per-row Skolem constants of the block stay attached to that row, which a substitution would lose)
+    pv = RowPos(x.space).val.t
+    cx.assume(pv == idx)
+    tsp = _reset_space(target)
+    if isinstance(x, GVec):
+        return GVec(x.val, tsp)
+    return RowArr(list(x.vals), tsp)
+
+
 class MaskIndex:
     """result of np.where(cond) with one argument on a symbolic condition array: the set of positions where cond holds"""
     def __init__(self, cond):
@@ -365,6 +396,8 @@ class NP:
             from .voxels import VArr, subst_index
             sub = {a: z3.IntVal(0) for a, (s, r) in enumerate(zip(x.shape_, reps)) if not (not isinstance(r, SV) and r == 1)}
             return VArr(shape, subst_index(x.elem, sub), x.dtype_)
+        if isinstance(x, (RowArr, GVec)) and isinstance(reps, tuple) and len(reps) == 2 and not isinstance(reps[1], SV) and reps[1] == 1:
+            return _tile_block(x, reps[0])
         if isinstance(reps, tuple) and len(reps) == 2 and reps[1] == 1 and isinstance(reps[0], SV):
             a = obj(x) if not isinstance(x, _np.ndarray) else x
             if a.ndim == 1:
@@ -410,6 +443,8 @@ class NP:
             return out
         return _np.arctan2(y, x)
     def where(self, c, *ab):
+        if ab and isinstance(c, (bool, _np.bool_)):
+            return ab[0] if c else ab[1]
         if ab and (type(c).__name__ == "VArr" or any(type(v).__name__ == "VArr" for v in ab)):
             from .voxels import VArr, _ite
             g = c if type(c).__name__ == "VArr" else [v for v in ab if type(v).__name__ == "VArr"][0]
@@ -443,6 +478,9 @@ class NP:
 
     def argsort(self, x, *a, **k):
         """assumed contract: a permutation sigma of [0,n) with x[sigma(0)] <= x[sigma(1)] <= ... (ascending)"""
+        if isinstance(x, GVec):
+            from .kernels import PermSeq
+            return PermSeq.argsort(x)
         if type(x).__name__ == "VArr" and x.ndim == 1:
             from .voxels import IndexMap
             cx = ctx()
